@@ -39,13 +39,21 @@ impl Monitor for M {
         let mut texts = vec![];
         for (i, f) in layout.files.iter().enumerate() {
             let x = emit_file(&mut ctx.rng, f);
-            let p = format!("{}/f{}.xml", dir, i);
+            // file names in no particular order: the order that counts is the order of the path list
+            let stem = *ctx.rng.pick(&["vehicle", "base", "zz", "a", "M", "b10", "b9", "_", "Z"]);
+            let p = format!("{}/{}{}.xml", dir, stem, i);
             if let Err(e) = std::fs::write(&p, &x) {
                 ctx.harness_error(format!("cannot write scratch file: {}", e));
                 return;
             }
             paths.push(p);
             texts.push(x);
+        }
+        // a file configured twice changes nothing (its frames and PDUs are duplicates of themselves)
+        if !paths.is_empty() && ctx.rng.chance(1, 10) {
+            let again = paths[ctx.rng.usize_below(paths.len())].clone();
+            paths.push(again);
+            ctx.obs("layout.path_listed_twice");
         }
         ctx.eval();
         ctx.mark(1);
@@ -196,6 +204,27 @@ impl Monitor for M {
                             Ok(other) => ctx.violation("lookup.by_context_app_frame", "mismatch", || detail(format!("lookup of {:?} gave {:?}", k, other.map(|m| m.short_name)))),
                             Err(p) => ctx.panic_violation("lookup.no_panic", &p, || detail("extract_metadata".into())),
                         }
+                        // ids cut to the 4 bytes a wire id can hold are different ids
+                        let cut = |t: &str| -> String { t.chars().take(4).collect() };
+                        if cut(&k.app_id) != k.app_id || cut(&k.context_id) != k.context_id {
+                            let short = FrameMetadataIdentification {
+                                context_id: cut(&k.context_id),
+                                app_id: cut(&k.app_id),
+                                frame_id: k.frame_id.clone(),
+                            };
+                            let eh3 = ExtendedHeader {
+                                application_id: short.app_id.clone(),
+                                context_id: short.context_id.clone(),
+                                ..eh.clone()
+                            };
+                            let want = e.frame_map_with_key.get(&short);
+                            ctx.eval();
+                            match guarded(|| extract_metadata(&g, nr, Some(&eh3)).cloned()) {
+                                Ok(got3) if got3.as_ref() == want => ctx.obs("ok.lookup_with_truncated_ids"),
+                                Ok(got3) => ctx.violation("lookup.by_context_app_frame", "truncated_ids", || detail(format!("lookup of {:?} gave {:?}, expected {:?}", short, got3.map(|m| m.short_name), want.map(|m| m.short_name.clone())))),
+                                Err(p) => ctx.panic_violation("lookup.no_panic", &p, || detail("extract_metadata".into())),
+                            }
+                        }
                         // app and context swapped must not find it (unless that key exists too)
                         if k.app_id != k.context_id {
                             let swapped = FrameMetadataIdentification {
@@ -236,7 +265,7 @@ impl Monitor for M {
 
     fn describe(&self, ctx: &Ctx) -> J {
         super::describe(
-            "abstract models: 0-12 frames (ids ID_<n> incl. n > 2^31 and non-numeric ids, 1/5 duplicates of an earlier id with different content, 5/6 with manufacturer extension whose four fields are each present 5/6), 0-30 PDUs (1/7 duplicate ids, optional description, 0-6 signal instances with distinct non-contiguous shuffled sequence numbers), signal refs over all S_* names incl. S_FLOA16, S_RAW/S_RAWD, unknown names, and custom signals -> codings -> all A_* base types incl. the A_INT*/A_SINT* synonyms, unknown base types and signals without coding; 1/12 models with a dangling PDU reference. Layouts: 1-4 files, elements grouped by kind in random order or fully shuffled, random child order inside PDU/FRAME/instances, namespace styles fx:/ho:, none, a:/b:, mixed, prefixed attributes, both <X-REF/> and <X-REF></X-REF>, optional container elements, comments, CRLF/no whitespace, texts with XML escapes and numeric character references, unrelated ECU manufacturer extensions and PROJECT elements. Lookups by frame id, by (context, app, frame id), with foreign / swapped ids and unknown ids. distinct = (#files, grouped?, duplicate frames?, duplicate PDUs?, dangling?, signal vocabulary used, #frames, #PDUs buckets); non-trivial = the model has a frame or PDU",
+            "abstract models: 0-12 frames (ids ID_<n> incl. n > 2^31 and non-numeric ids, 1/5 duplicates of an earlier id with different content, 5/6 with manufacturer extension whose four fields are each present 5/6), 0-30 PDUs (1/7 duplicate ids, optional description, 0-6 signal instances with distinct non-contiguous shuffled sequence numbers), signal refs over all S_* names incl. S_FLOA16, S_RAW/S_RAWD, unknown names, and custom signals -> codings -> all A_* base types incl. the A_INT*/A_SINT* synonyms, unknown base types and signals without coding; 1/12 models with a dangling PDU reference. Layouts: 1-4 files with names in no particular order (1 in 10 path lists names a file twice), elements grouped by kind in random order or fully shuffled, random child order inside PDU/FRAME/instances, namespace styles fx:/ho:, none, a:/b:, mixed, prefixed attributes, both <X-REF/> and <X-REF></X-REF>, optional container elements, comments, CRLF/no whitespace, texts with XML escapes and numeric character references, unrelated ECU manufacturer extensions and PROJECT elements. Application / context ids from pools with equal concatenations, trailing blanks and ids longer than 4 bytes sharing their first 4 bytes. Lookups by frame id, by (context, app, frame id), with foreign / swapped / 4-byte-truncated ids and unknown ids. distinct = (#files, grouped?, duplicate frames?, duplicate PDUs?, dangling?, signal vocabulary used, #frames, #PDUs buckets); non-trivial = the model has a frame or PDU",
             &[
                 "documents stay inside what the format defines: distinct sequence numbers per parent, non-empty text in mandatory text elements, CODING-REF as an empty element, unique signal and coding ids (the statement fixes 'first wins' only for frames and PDUs)",
                 "an empty DESC element means no description",
